@@ -39,6 +39,9 @@ type RawRevision struct {
 	TightHead bool `json:"tight_head,omitempty"`
 	// TightTail: the data of the object stream end with the last byte of the last object (no end-of-line behind it)
 	TightTail bool `json:"tight_tail,omitempty"`
+	// W1 (stream kind): width in bytes of the type field of the entries, /W [W1 n 2]; 0 stands for 1. Table 17 puts
+	// no limit on a field's width: the fields are big-endian numbers of the stated width
+	W1 int `json:"w1,omitempty"`
 }
 
 // WriteRaw writes the revisions as one file. root is the catalog's object number; size the /Size value.
@@ -177,6 +180,10 @@ func WriteRawOrdered(revs []RawRevision, root NRef, size int, eol string, order 
 					w2++
 				}
 			}
+			w1 := rv.W1
+			if w1 <= 0 {
+				w1 = 1
+			}
 			var data bytes.Buffer
 			index := Arr{}
 			for i := 0; i < len(entries); {
@@ -187,7 +194,9 @@ func WriteRawOrdered(revs []RawRevision, root NRef, size int, eol string, order 
 				index = append(index, Int(entries[i].num), Int(j-i+1))
 				for k := i; k <= j; k++ {
 					e := entries[k]
-					data.WriteByte(byte(e.typ))
+					for b := w1 - 1; b >= 0; b-- {
+						data.WriteByte(byte(e.typ >> (8 * uint(b))))
+					}
 					for b := w2 - 1; b >= 0; b-- {
 						data.WriteByte(byte(e.f1 >> (8 * uint(b))))
 					}
@@ -198,7 +207,7 @@ func WriteRawOrdered(revs []RawRevision, root NRef, size int, eol string, order 
 			}
 			payload := data.Bytes()
 			d := append(Dict{{"Type", Name("XRef")}}, trailer...)
-			d = d.with("W", Arr{Int(1), Int(w2), Int(2)}).with("Index", index)
+			d = d.with("W", Arr{Int(w1), Int(w2), Int(2)}).with("Index", index)
 			if rv.Flate {
 				payload = filt.Zlib(payload, 6)
 				d = d.with("Filter", Name("FlateDecode"))
